@@ -15,7 +15,8 @@ import (
 //	        r<k>.<i> Responses message of k to i | x<id>.<i> adversarial message <id> to i
 //	defs:   DUP=<a>.<b>...                                the listed members all use member a's long-term key
 //	        X<id>=<spec>;...  with spec one of
-//	        K.<claim>.<sender>.<keyowner|x<N>>            PublicKey claiming index <claim>, sent by <sender>
+//	        K.<claim>.<sender>.<keyowner|x<N>>[.<pre>]    PublicKey claiming index <claim>, sent by <sender>; SenderId
+//	                                                      field pre-filled: "-" empty (default), "g" garbage, <k> id of k
 //	        D.<claim>.<sealer>.<rcpt>.<variant>           sealed by <sealer>'s key for <rcpt> (see Sim.AdvDeal)
 //	        GD.<j>.<i>.<claim> / PD.<j>.<i>.<claim>       genuine / previous-session deal of j for i, Index := claim
 //	        R.<dealer>.<responder>.<sid>.<a|c>.<signer>   response built from scratch (see Sim.AdvResp)
@@ -90,7 +91,19 @@ func (s *Sim) injectSpec(spec string, to int) {
 	a := func(k int) int { return h.Atoi(f[k]) }
 	switch f[0] {
 	case "K":
-		s.InjectPk(to, s.AdvPk(a(1), f[3]), a(2))
+		m := s.AdvPk(a(1), f[3])
+		if len(f) > 4 { // SenderId as the forger filled it in: "-" empty, "g" garbage, <k> the id of member k
+			switch f[4] {
+			case "-":
+			case "g":
+				m.Publickey.SenderId = []byte("no-such-member")
+			default:
+				if k := a(4); k >= 0 && k < len(s.Ids) {
+					m.Publickey.SenderId = append([]byte{}, s.Ids[k]...)
+				}
+			}
+		}
+		s.InjectPk(to, m, a(2))
 	case "D":
 		d := s.AdvDeal(a(1), a(2), a(3), strings.Join(f[4:], "."))
 		info := s.Sealed[len(s.Sealed)-1]
